@@ -184,6 +184,10 @@ Transformations ==
   \cup {[tok |-> <<kd[1], S(t[1]), S(t[2])>>, fn |-> kd[2], pos |-> <<I(t[1]), I(t[2])>>] :
             kd \in {<<"xorcomp", "VariableCompression_xor_random">>, <<"majcomp", "VariableCompression_maj_random">>},
             t \in {<<4, 2>>, <<5, 3>>, <<6, 1>>}}
+  \* ... with the degree left out: the documented default is 3 ("d  arity of majority (default: 3)")
+  \cup {[tok |-> <<kd[1], S(n)>>, fn |-> kd[2], pos |-> <<I(n), I(3)>>] :
+            kd \in {<<"xorcomp", "VariableCompression_xor_random">>, <<"majcomp", "VariableCompression_maj_random">>},
+            n \in {4, 6}}
   \cup {[tok |-> <<"ite">>,  fn |-> "IfThenElseSubstitution", pos |-> <<>>],
         [tok |-> <<"flip">>, fn |-> "FlipPolarity", pos |-> <<>>],
         [tok |-> <<"none">>, fn |-> "identity", pos |-> <<>>]}
